@@ -514,7 +514,7 @@ def _cvc5(solver, enc):
         f.write(txt)
         path = f.name
     try:
-        p = subprocess.run([CVC5, "--rlimit=%d" % 4000000, path], capture_output=True, text=True, timeout=120)
+        p = subprocess.run([CVC5, "--rlimit=%d" % 4000000, path], capture_output=True, text=True, timeout=1200)      # the resource limit is the (deterministic) budget; the wall clock is a safety net sized for a loaded machine
         out = p.stdout.strip().splitlines()
     except Exception:
         return None
